@@ -207,7 +207,13 @@ fn gen_plan(rng: &mut Prng) -> (ClockSpec, u64) {
         "mixture" => {
             for _ in 0..rng.range(1, 6) {
                 let i = rng.below(300) as usize;
-                match rng.below(5) {
+                match rng.below(6) {
+                    5 => {
+                        // consecutive probe deltas that differ by exactly 2^31 (or one off): the
+                        // variation is i32::MIN in two's complement
+                        let j = i.max(1);
+                        measured[j] = measured[j - 1].wrapping_add(0x8000_0000u64.wrapping_add(rng.below(3)).wrapping_sub(1));
+                    }
                     0 => measured[i] = 0u64.wrapping_sub(rng.range(1, 1000)),
                     1 => measured[i] = 100 * rng.range(1, 9),
                     2 => measured[i] = 0x8000_0000u64.wrapping_add(rng.below(5)).wrapping_sub(2),
@@ -225,7 +231,7 @@ fn gen_plan(rng: &mut Prng) -> (ClockSpec, u64) {
         // a fully generic hostile script from the fault catalogue
         let faults = crate::clockgen::pick_faults(rng, &ALL_CF);
         let rate = rng.range(1, 40) as u32;
-        let (c, _) = gen_clock(rng, &ClockCfg { n: TT_READS, faults, rate_per_1000: rate, max_stretch: 8 });
+        let (c, _) = gen_clock(rng, &ClockCfg { n: TT_READS, faults, rate_per_1000: rate, max_stretch: 8 , long_stuck: false});
         readings = c.readings;
     }
     (ClockSpec { readings, tail_key: rng.u64(), fork_skews: vec![] }, class)
